@@ -99,6 +99,9 @@ def run_case(case, ctx):
                 raise Kill()
 
         def process_bucket(self, cycle, prefix, prefixdir, storage_index_b32):
+            if lease:
+                # the lease checker's own per-bucket work (lease-age and leases-per-share histograms, space accounting), whose state must survive restarts too
+                Base.process_bucket(self, cycle, prefix, prefixdir, storage_index_b32)
             log.append((cycle, storage_index_b32))
             env["cycle"] = cycle
             self._point(cycle)
@@ -130,6 +133,13 @@ def run_case(case, ctx):
             name = pre + "bucket%02d" % j
             os.makedirs(os.path.join(ss.sharedir, pre, name))
             buckets.append(name)
+            if lease:
+                # a real immutable share with one lease in every bucket
+                from allmydata.storage.immutable import ShareFile
+                from allmydata.storage.lease import LeaseInfo
+                sf = ShareFile(os.path.join(ss.sharedir, pre, name, "0"), max_size=10, create=True)
+                sf.write_share_data(0, b"0123456789")
+                sf.add_lease(LeaseInfo(0, b"r" * 32, b"c" * 32, int(R.seconds()) + 31 * 86400, b"n" * 20))
     c = C(ss, statefile)
     classes = set(classes0)
     interruptions = 0
